@@ -824,7 +824,9 @@ theorem remakePage_fits (d : Doc) (hd : DecoOk d.root) (index : Nat) (resume : O
     subst hp
     refine ⟨{ pageBottom := d.pageH, currentPage := index + 1, forcedBreak := forcedBreakOf np }, rfl, ?_⟩
     simp only [pageSource]
-    rw [finalRoot_placed _ _ _ _ f (contFold_oof _ _ _ (World.empty, []) (fun g hg => by simp at hg))
+    rw [finalRoot_placed _ _ _ _ f
+      (substAbsList_oof _ (absFold_oof _ _ (_, []) (fun q hq => by simp at hq)) _
+        (contFold_oof _ _ _ (World.empty, []) (fun g hg => by simp at hg)))
       (absFold_oof _ _ (_, []) (fun q hq => by simp at hq)) (layoutBox_frag_isPh _ _ _ _ _ _ _ _ _ _ _ hfrag)]
     split
     · rename_i hb
